@@ -6,8 +6,10 @@ import importlib.util
 import inspect
 import math
 import operator
+import os
 import socket
 import sys
+import threading
 import warnings
 from pathlib import Path
 from typing import TYPE_CHECKING, Any, TypeGuard
@@ -16,7 +18,7 @@ import cloudpickle
 import numpy as np
 
 if TYPE_CHECKING:
-    from collections.abc import Callable, Iterable
+    from collections.abc import Callable, Generator, Iterable
 
     import pydantic
 
@@ -42,8 +44,25 @@ def load(path: Path, *, cache: bool = False) -> Any:
 def dump(obj: Any, path: Path) -> None:
     """Dump an object to a path using cloudpickle."""
     path.parent.mkdir(parents=True, exist_ok=True)
-    with path.open("wb") as f:
+    with atomic_write(path, "wb") as f:
         cloudpickle.dump(obj, f)
+
+
+@contextlib.contextmanager
+def atomic_write(path: Path, mode: str) -> Generator[Any, None, None]:
+    """Open a temporary sibling of ``path`` for writing and rename it to ``path`` on success.
+
+    The existence of ``path`` is used as the marker that its content is complete, so it
+    must never be visible while partially written (e.g., when the process is killed).
+    """
+    tmp = path.with_name(f"{path.name}.{os.getpid()}.{threading.get_ident()}.tmp")
+    try:
+        with tmp.open(mode) as f:
+            yield f
+        tmp.replace(path)
+    except BaseException:
+        tmp.unlink(missing_ok=True)
+        raise
 
 
 def _get_cache_key(path: Path) -> tuple:
